@@ -374,7 +374,7 @@ OpFlush(S, e, dirs, mode) ==
   THEN LET R1 == IF "R" \in dirs THEN FiltProcessIn(S, mode) ELSE [s |-> S, p |-> FALSE]
            R2 == IF "W" \in dirs THEN FiltProcessOut(R1.s, mode) ELSE [s |-> R1.s, p |-> FALSE]
            R3 == PairFlush(R2.s, 1, dirs, mode)
-       IN [s |-> R3.s, r |-> IF R1.p \/ R2.p THEN 1 ELSE 0]
+       IN [s |-> [R3.s EXCEPT !.b[3].fin = @ \/ (mode = 2 /\ "W" \in dirs)], r |-> IF R1.p \/ R2.p THEN 1 ELSE 0]
   ELSE PairFlush(S, e, dirs, mode)
 
 (* the last reference is gone: unlink + finalize (no callback of e can run any more) *)
@@ -461,7 +461,10 @@ Ev(S, e, f) == IF IsDeferred(e) THEN EvD(S, e, f)
 UnderCb(S, k, f) ==
   CASE k = "r" -> FiltRead(S) \* be_filter_readcb
     [] k = "w" -> IF ~S.b[3].alive /\ S.b[3].sref = 0 THEN S ELSE FiltProcessOut(S, 0).s
-    [] OTHER -> IF ~S.b[3].alive /\ S.b[3].sref = 0 THEN S ELSE EvD(S, 3, f)
+    \* be_filter_eventcb passes the event on even when input is still waiting below the filter
+    \* (filter not reading / at its high watermark): EOF before the data, trigger "filt_eof_before_data"
+    [] OTHER -> IF ~S.b[3].alive /\ S.b[3].sref = 0 THEN S
+                ELSE EvD(IF "EOF" \in f /\ S.b[1].in > 0 THEN Dv(S, "filt_eof_before_data") ELSE S, 3, f)
 
 Cb(S, e, k, f) == IF IsUnder(e) THEN UnderCb(S, k, f) ELSE UserCb(S, e, k, f)
 
